@@ -78,6 +78,7 @@ type Exec struct {
 	sym          *symSession
 	unitFType    *Contract
 	assumeSafe   bool
+	unitProps    []string
 	tailNext     bool
 	retGuards    []*Term
 }
@@ -97,6 +98,23 @@ func newExec(e *Engine, unit *ssa.Function) *Exec {
 func (x *Exec) oblige(kind, detail string, props []string, cond *Term, goalTxt string) {
 	if isLitTrue(cond) || isLitFalse(x.st.guard) {
 		return
+	}
+	if x.assumeSafe && len(x.unitProps) > 0 && kind != "frame" && kind != "post" {
+		// attr assumesafe: obligations that belong only to OTHER properties (safety, error locations of inlined code) are
+		// assumed in this unit, not proved; listed in the evidence
+		own := false
+		for _, p := range props {
+			for _, q := range x.unitProps {
+				if p == q {
+					own = true
+				}
+			}
+		}
+		if !own {
+			x.assumeHere(cond)
+			x.assumed["ASSUMESAFE "+x.unitName] = true
+			return
+		}
 	}
 	base := x.unitName + "/" + kind
 	if detail != "" {
